@@ -40,16 +40,46 @@ def _msg_class(exc):
     m = str(exc)
     if isinstance(exc, KeyError):
         m = m.strip('\'"')
+    # a node repr <ClassName ...nested...> keeps only its class name
+    out, depth, i = [], 0, 0
+    while i < len(m):
+        ch = m[i]
+        if ch == '<' and re.match(r'<[A-Z][A-Za-z]+', m[i:]):
+            if depth == 0:
+                out.append(re.match(r'<([A-Z][A-Za-z]+)', m[i:]).group(1))
+            depth += 1
+        elif ch == '>' and depth > 0:
+            depth -= 1
+        elif depth == 0:
+            out.append(ch)
+        i += 1
+    m = ''.join(out)
+    m = re.sub(r'USER_DEFINED\([^)]*\)', 'USER_DEFINED', m)   # the record type's name
     m = re.sub(r'\d+', 'N', m)
+    if isinstance(exc, (AttributeError, TypeError)):
+        # quoted words are class / attribute names of the implementation
+        m = re.sub(r"'([A-Za-z_]+)'", r'\1', m)
     m = re.sub(r"'[^']*'", 'Q', m)
     m = re.sub(r'"[^"]*"', 'Q', m)
-    m = re.sub(r'<[^>]*>', 'O', m)
-    return _slug(m, 40)
+    return _slug(m, 48)
+
+
+def compile_step(tb):
+    """which step of Compiler.compile (or bytes / str) a traceback is in: the
+    name of the function called directly from compile()"""
+    for i, fr in enumerate(tb):
+        if fr.filename == os.path.join(REPO, 'qbee', 'compiler.py') and fr.name == 'compile' \
+                and i + 1 < len(tb):
+            return tb[i + 1].name
+    for fr in tb:
+        if fr.filename.startswith(REPO + os.sep) and fr.name in ('__bytes__', '__str__'):
+            return fr.name.strip('_')
+    return 'unknown'
 
 
 def exc_class(e):
     """(type name, 'file:function' of the innermost /repo frame, construct
-    class = slug of the raising source line [+ ':' + message class])"""
+    class = slug of the raising source line [+ ':' + message class], stage)"""
     tb = traceback.extract_tb(e.__traceback__)
     where, line = None, ''
     for fr in reversed(tb):
@@ -57,12 +87,19 @@ def exc_class(e):
             where = f'{os.path.relpath(fr.filename, REPO)}:{fr.name}'
             line = (fr.line or linecache.getline(fr.filename, fr.lineno) or '').strip()
             break
+    # the steps before folding / code generation do not depend on the level
+    # or the debug flag
+    step = compile_step(tb)
     stage = 'post'
-    for fr in tb:
-        if fr.filename.startswith(REPO + os.sep) and fr.name == 'parse_string':
-            stage = 'parse'
+    if step == 'parse_string':
+        stage = 'parse'
+    elif step in ('bind', 'process_tree', '__init__'):
+        stage = 'pass'
     cls = _slug(line)
-    mc = _msg_class(e)
+    if isinstance(e, UnicodeError):
+        mc = _slug(f'{getattr(e, "encoding", "")}-{getattr(e, "reason", "")}', 40)
+    else:
+        mc = _msg_class(e)
     if mc and not isinstance(e, AssertionError):
         cls = cls + ':' + mc
     return type(e).__name__, where, cls, stage
@@ -130,15 +167,36 @@ def one_config(src, level, debug):
         return {'v': ['exc', t, w, cl, phase, str(e)[:160]], 'stage': stage}
 
 
+_MEM_SET = [False]
+
+
+def _limit_memory():
+    """constant folding of a power tower can ask for unbounded memory: cap
+    the address space of this worker process (MemoryError instead of
+    exhausting the host)"""
+    if not _MEM_SET[0]:
+        import resource
+        lim = 3 * 1024 ** 3
+        try:
+            resource.setrlimit(resource.RLIMIT_AS, (lim, lim))
+        except (ValueError, OSError):
+            pass
+        _MEM_SET[0] = True
+
+
 def check(case):
     """case: {'src': text, 'full': bool, 'tl': seconds per configuration}
     -> {'res': [[level, debug, verdict], ...], 'parsed': bool}
     The text is compiled at (-O0, no -g) first; when the failure (if any) did
-    not happen inside parse_string the other five configurations follow."""
+    not happen inside parse_string / tree.bind / Pass1-3 (steps that do not
+    read the level or the debug flag) the other five configurations follow."""
     src = case['src']
-    tl = float(case.get('tl', 10))
+    _limit_memory()
+    # CPU seconds per configuration: a base plus an allowance per character
+    tl = float(case.get('tl', 20)) + len(src) / 200.0
     out = []
     parsed = True
+    front = 'ok'
     # CPU time of this process (user+sys), so that a loaded host cannot cause
     # a spurious timeout
     old = signal.signal(signal.SIGPROF, _alarm)
@@ -146,21 +204,23 @@ def check(case):
         for i, (level, debug) in enumerate(CONFIGS):
             if i > 0 and (not parsed or not case.get('full', True)):
                 break
-            signal.setitimer(signal.ITIMER_PROF, tl)
+            signal.setitimer(signal.ITIMER_PROF, tl, 1.0)
             try:
                 r = one_config(src, level, debug)
-            except _Timeout:
-                r = {'v': ['timeout', tl], 'stage': 'unknown'}
+            except _Timeout as e:
+                step = compile_step(traceback.extract_tb(e.__traceback__))
+                r = {'v': ['timeout', step, tl], 'stage': 'unknown'}
             finally:
                 signal.setitimer(signal.ITIMER_PROF, 0)
             out.append([level, int(debug), r['v']])
-            if i == 0 and r['stage'] == 'parse':
+            if i == 0 and r['stage'] in ('parse', 'pass'):
                 parsed = False
+                front = r['stage']
             if r['v'][0] == 'timeout':
                 break
     finally:
         signal.signal(signal.SIGPROF, old)
-    return {'res': out, 'parsed': parsed}
+    return {'res': out, 'parsed': parsed, 'front': front}
 
 
 # ---------------------------------------------------------------------------
@@ -168,9 +228,11 @@ def check(case):
 
 def _tok_py(t):
     # token alphabet of the model: ['a', n] operand atom n ; ['o', k] operator k
-    from qbee.expr import NumericLiteral
+    from qbee.expr import NumericLiteral, BinaryOp, Operator
     if t[0] == 'a':
         return NumericLiteral(t[1])
+    if t[0] == 'b':
+        return BinaryOp(NumericLiteral(7), NumericLiteral(8), Operator.ADD)
     return OPS[t[1]]
 
 
